@@ -38,8 +38,13 @@ class VirtualLoop(asyncio.SelectorEventLoop):
     def time(self) -> float:
         return self._vtime
 
+    MAX_VIRTUAL_SECONDS = 5.0e7  # ~19 months: no history in this harness lasts that long; a runaway (a timer loop that keeps an
+    # otherwise stuck case alive for ever) is reported as a deadlock instead of spinning
+
     def _run_once(self) -> None:  # type: ignore[override]
         self.iterations += 1
+        if self._vtime > self.MAX_VIRTUAL_SECONDS and not self._stopping:
+            raise Deadlock
         if not self._ready:
             while self._scheduled and self._scheduled[0]._cancelled:
                 handle = heapq.heappop(self._scheduled)
